@@ -362,18 +362,31 @@ def openAndServe (fs : FS) (c : Cfg) (filename : Bytes) : Traced Outcome :=
 /-- `fsrv.precompressors[ae]` -/
 def sidecarSuffix (c : Cfg) (ae : Bytes) : Option Bytes := (c.pre.find? (·.1 = ae)).map (·.2)
 
+/-- the sidecar lookup before the sidecar's own name was tested against the hide list.
+    Kept for `Props.sidecar_honours_hide_old_code_fails`. -/
+def findSidecarOld (fs : FS) (c : Cfg) (filename : Bytes) : List Bytes → Traced (Option (Bytes × Nat × Bytes))
+  | [] => (none, [])
+  | ae :: rest =>
+    match sidecarSuffix c ae with
+    | none => findSidecarOld fs c filename rest
+    | some suf =>
+      match fs (filename ++ suf) with
+      | .file id => (some (filename ++ suf, id, ae), [filename ++ suf, filename ++ suf])
+      | _ => withTrace (filename ++ suf) (findSidecarOld fs c filename rest)
+
 /-- "check for precompressed files": the first accepted encoding with a configured precompressor
-    whose sidecar `filename + suffix` can be stat'ed and is not a directory.  Note that the
-    sidecar's own name is not tested against the hide list. -/
+    whose sidecar `filename + suffix` is not hidden, can be stat'ed and is not a directory -/
 def findSidecar (fs : FS) (c : Cfg) (filename : Bytes) : List Bytes → Traced (Option (Bytes × Nat × Bytes))
   | [] => (none, [])
   | ae :: rest =>
     match sidecarSuffix c ae with
     | none => findSidecar fs c filename rest
     | some suf =>
-      match fs (filename ++ suf) with
-      | .file id => (some (filename ++ suf, id, ae), [filename ++ suf, filename ++ suf])
-      | _ => withTrace (filename ++ suf) (findSidecar fs c filename rest)
+      if c.hidden (filename ++ suf) then findSidecar fs c filename rest
+      else
+        match fs (filename ++ suf) with
+        | .file id => (some (filename ++ suf, id, ae), [filename ++ suf, filename ++ suf])
+        | _ => withTrace (filename ++ suf) (findSidecar fs c filename rest)
 
 /-- sidecar or the file itself -/
 def serveContent (fs : FS) (c : Cfg) (filename : Bytes) : Traced Outcome :=
